@@ -143,6 +143,7 @@ func (srv *Server) Serve() error {
 			//TODO: Return a shutdown error if shutdown has been requested
 			return err
 		}
+		verifAt("server.serve.accepted")
 		srv.wg.Add(1)
 		go srv.handleConn(conn)
 	}
